@@ -8,7 +8,6 @@ import (
 	"os"
 	"sort"
 	"strings"
-	"sync"
 	"sync/atomic"
 
 	"github.com/biogo/hts/bgzf"
@@ -280,8 +279,6 @@ func bfsOne(c *Ctx, rf rfile, cacheKind string, cacheCap int, withCache bool, st
 			key string
 		}
 		results := make([][]succ, len(frontier))
-		var mu sync.Mutex
-		_ = mu
 		parallel(len(frontier), func(i int) {
 			h := frontier[i]
 			for _, op := range menu {
